@@ -96,6 +96,12 @@ class Sys(e1.TimedSys):
             # several entries for one key in ONE SD message, through the whole receive path: the last one counts
             for seq in ((2, 1, 2), (1, 2, 1), (1, 0, 1), (INF, 1, INF)):
                 acts.append(("addseq", "K1", self.addrs[0], seq))
+        if self.cfg.get("sequences"):
+            # a refresh (ttl 2) or a stop (ttl 0) that shares its SD message with entries of other kinds in front
+            # of it, through the whole receive path: the neighbours must not matter
+            for ttl in (2, 0):
+                for prefix in ("ack", "nack", "find+ack"):
+                    acts.append(("addmixed", "K1", self.addrs[0], ttl, prefix))
         if self.cfg.get("reject") and self.mode == "instance":
             acts.append(("reject", not self.model.reject))
         return acts
@@ -129,6 +135,25 @@ class Sys(e1.TimedSys):
                     if (a, k) not in self.model.deadline:
                         self.expect.append((now, "new", k, a))
                     self.model.deadline[(a, k)] = None if ttl == INF else now + ttl
+        elif act[0] == "addmixed":
+            _, k, a, ttl, prefix = act
+            self.session = getattr(self, "session", 0) + 1
+            front = {"ack": [("suback", 0x7171, 1, 1, 3, 5, (), ())], "nack": [("suback", 0x7171, 1, 1, 0, 5, (), ())],
+                     "find+ack": [("find", 0x7172, 0xFFFF, 0xFF, 3, 0xFFFFFFFF, (), ()), ("suback", SID, 1, 1, 3, 5, (), ())]}[prefix]
+            if self.mode == "discover":
+                ents = front + [("offer", SID, {"K1": 1, "K2": 2}[k], 1, ttl, 0, (), ())]
+            else:
+                eg = {"K1": 5, "K2": 6}[k]
+                ents = front + [("subscribe", SID, 1, 1, ttl, eg, (refcodec.v4("192.0.2.99", 3000 + eg),), ())]
+            self.prot.datagram_received(refcodec.sd_message(self.session, ents), A[a], False)
+            if ttl == 0:
+                if (a, k) in self.model.deadline:
+                    del self.model.deadline[(a, k)]
+                    self.expect.append((now, "gone", k, a))
+            else:
+                if (a, k) not in self.model.deadline:
+                    self.expect.append((now, "new", k, a))
+                self.model.deadline[(a, k)] = now + ttl
         elif act[0] == "stop":
             _, k, a = act
             if self.mode == "discover":
@@ -164,7 +189,7 @@ class Sys(e1.TimedSys):
         r = self.loop._clock_resolution
         due = sorted((d, a, k) for (a, k), d in self.model.deadline.items() if d is not None and d < now + r)
         tie_key = None
-        if act is not None and act[0] in ("add", "addseq") and due:
+        if act is not None and act[0] in ("add", "addseq", "addmixed") and due:
             tie_key = (act[2], act[1])
         if adv == "jump":
             # everything finite expires at its own deadline during the jump
@@ -178,11 +203,12 @@ class Sys(e1.TimedSys):
         for d, a, k in due:
             if tie_key == (a, k) and pos == "pre":
                 # refresh first: the timer is cancelled.  alternative accepted: gone then new.
-                if act[0] == "add":
+                if act[0] == "add" or (act[0] == "addmixed" and act[3] != 0):
                     self.alt = [(now, "gone", k, a), (now, "new", k, a)]
                 continue
             if act is not None and pos == "pre" and (
-                    (act[0] == "stop" and (act[2], act[1]) == (a, k)) or (act[0] == "removeall" and act[1] == a)):
+                    (act[0] == "stop" and (act[2], act[1]) == (a, k)) or (act[0] == "removeall" and act[1] == a)
+                    or (act[0] == "addmixed" and act[3] == 0 and (act[2], act[1]) == (a, k))):
                 continue  # removed explicitly before the timer: do() expects the 'gone'
             # the harness lets the loop run at `now`, with d - r < now: the expiry must be reported
             # in this step, i.e. at `now` (never in an earlier step, never later)
